@@ -23,8 +23,8 @@ from .loader import Unsupported
 from . import discharge as D
 
 VERIF = Path(__file__).resolve().parent.parent
-EVID = VERIF / "evidence"
-REPLAYS = VERIF / "replays"
+EVID = Path(os.environ.get("PYVC_EVIDENCE_DIR", VERIF / "evidence"))
+REPLAYS = Path(os.environ.get("PYVC_REPLAYS_DIR", VERIF / "replays"))
 KNOWN = VERIF / "known_findings.json"
 REPLAY_PY = os.environ.get("PYVC_REPLAY_PYTHON", "/venv/bin/python")
 
